@@ -165,7 +165,7 @@ class BodyMixin:
                 return None
             try:
                 return json_mod.loads(b)
-            except ValueError:
+            except (ValueError, RecursionError):
                 self._raise(RequestError('Invalid JSON'), RequestError)
         return None
 
